@@ -18,6 +18,11 @@ The other clauses of the property:
 * `Props/C15RootAt.lean`  — `rootAt_spec` (rooted and unrooted trees)
 * `Props/C15Dag.lean`     — the DAG container: cache soundness, `isDA_iff_acyclic`
 * `Props/C15Obs.lean`, `Props/C15ObsReady.lean` — `setFather` / `addSon` with an edge object, `rootAt` keeps the associations
+* `Props/C15ValidU.lean`  — `isUnrootedTree_iff`: the reference decision for unrooted validity; `isValid_eq_ref`
+* `Props/C15Unrooted.lean` — the queries that need a rooted tree refuse an unrooted one (`*_refuses_unrooted`)
+* `Props/C15Copy.lean`    — copies of the tree / DAG containers: `copy_same_relations`, `copy_independent`, `heap_cache_sound`
+* `Props/C15ObsCopy.lean` — copies of the tree observer, `removeSon(s)` and the object-level queries over all histories
+* `Props/C15DagObs.lean`  — the DAG observer's wrappers; `Props/C15Remove.lean` — removals remove exactly the relation
 -/
 namespace Bpp.C15
 open Bpp Bpp.Graph Bpp.Graph.T
